@@ -784,6 +784,106 @@ static void run_random_access(int codec, const gbuf *src, size_t written,
     (void)written;
 }
 
+/* public entry points below the array level: single-block codecs, run
+ * iteration, dictionary lookups.  Each is logged as a Blk / At event and must
+ * agree with the array the scenario encoded. */
+static void blk_emit(int codec, const char *api, int f, size_t start, size_t k,
+                     long long ret, const uint64_t *ys, size_t ny) {
+    ev_begin("Blk");
+    ev_int("sc", (long long)scen_id);
+    ev_str("codec", CODEC[codec]);
+    ev_str("api", api);
+    ev_int("fault", f);
+    ev_int("start", (long long)start);
+    ev_int("k", (long long)k);
+    ev_int("ret", f ? -1 : ret);
+    ev_arr("ys", ys, f ? 0 : ny);
+    ev_end();
+}
+static void run_sub_apis(int codec, const gbuf *src, const uint64_t *xs,
+                         const uint32_t *x32, size_t n) {
+    const uint8_t *s = src->p;
+    if ((codec == C_BP32 || codec == C_BPD32) && n >= 128) {
+        size_t starts[3] = {0, 128, (n / 128 - 1) * 128};
+        for (int i = 0; i < 3; i++) {
+            size_t st = starts[i];
+            if (st + 128 > n || (i > 0 && st == starts[i - 1])) {
+                continue;
+            }
+            gbuf buf = gb_alloc(128 * 4 + 8);
+            gbuf out = gb_alloc(128 * 4);
+            uint32_t prev = st ? x32[st - 1] : 0;
+            size_t w = 0, r = 0;
+            int f = codec == C_BP32 ? GUARDED(w = varintBP128EncodeBlock32(buf.p, x32 + st))
+                                    : GUARDED(w = varintBP128DeltaEncodeBlock32(buf.p, x32 + st, prev));
+            if (!f) {
+                f = codec == C_BP32 ? GUARDED(r = varintBP128DecodeBlock32(buf.p, (uint32_t *)out.p))
+                                    : GUARDED(r = varintBP128DeltaDecodeBlock32(buf.p, (uint32_t *)out.p, prev));
+            }
+            uint64_t ys[128];
+            for (int j = 0; j < 128; j++) {
+                ys[j] = f ? 0 : ((uint32_t *)out.p)[j];
+            }
+            blk_emit(codec, "EncodeBlock32/DecodeBlock32", f, st, 128, (!f && r == w && w > 0) ? 128 : 0, ys, 128);
+            gb_free(&buf);
+            gb_free(&out);
+        }
+    }
+    if (codec == C_RLE) {
+        /* iterate the stream run by run */
+        uint64_t *ys = malloc((n + 1) * 8);
+        size_t got = 0, off = 0;
+        int f = 0;
+        while (got < n && !f) {
+            size_t rl = 0, c = 0;
+            uint64_t v = 0;
+            f = GUARDED(c = varintRLEDecodeRun(s + off, &rl, &v));
+            if (f || c == 0 || rl == 0) {
+                break;
+            }
+            for (size_t j = 0; j < rl && got < n; j++) {
+                ys[got++] = v;
+            }
+            off += c;
+        }
+        blk_emit(codec, "DecodeRun", f, 0, n, (long long)got, ys, got);
+        free(ys);
+    }
+    if (codec == C_DICT_WITH && g_dict) {
+        size_t cand[] = {0, 1, n / 2, n - 1, 255, 256, 257};
+        size_t idx[8], k = 0;
+        uint64_t ys[8];
+        int f = 0;
+        for (size_t i = 0; i < 7; i++) {
+            if (cand[i] < n) {
+                idx[k++] = cand[i];
+            }
+        }
+        size_t done = 0;
+        for (done = 0; done < k && !f; done++) {
+            int32_t di = -1;
+            f = GUARDED(di = varintDictFind(g_dict, xs[idx[done]]));
+            ys[done] = 0xDEADDEADDEADULL;
+            if (!f && di >= 0) {
+                f = GUARDED(ys[done] = varintDictLookup(g_dict, (uint32_t)di));
+            }
+        }
+        ev_begin("At");
+        ev_int("sc", (long long)scen_id);
+        ev_str("codec", CODEC[codec]);
+        ev_str("api", "Find/Lookup");
+        ev_int("fault", f);
+        fprintf(tr_f, ",\"idx\":[");
+        size_t m = f ? (done ? done - 1 : 0) : done;
+        for (size_t i = 0; i < m; i++) {
+            fprintf(tr_f, i ? ",%zu" : "%zu", idx[i]);
+        }
+        fputc(']', tr_f);
+        ev_arr("ys", ys, m);
+        ev_end();
+    }
+}
+
 /* header accessors: C16 */
 static void acc_emit(int codec, const char *api, int f, long long ret,
                      int has_val, uint64_t val) {
@@ -967,6 +1067,7 @@ static void scenario(int codec, long param, size_t n, const char *shape,
                 run_decode(codec, param, api, &src, o.written, o.bits, n, n);
             }
             run_random_access(codec, &src, o.written, n);
+            run_sub_apis(codec, &src, xs, x32, n);
         }
         if (what & 4) {
             size_t caps[] = {0, 1, n - 1, n / 2, 127, 128, 129, n > 128 ? n - 128 : 0};
